@@ -17,6 +17,8 @@ ASSUMPTIONS = [
     "penalty (it offers no method)",
     "at alpha_max (1 + 1e-8): penalised coefficients exactly 0 and unpenalised part within 1e-6 of the null model; at alpha_max "
     "(1 - 1e-3) (positive=False only): some penalised coefficient non-zero; fits use tol = 1e-10",
+    "MCP penalties only where gamma > 1 / min_j L_j (their well-posed range); under fixed-point scoring with an unpenalised part to fit, "
+    "'exactly zero' is read up to the tolerance (the criterion ||w - prox(w - grad/L)|| <= tol can stop one prox step before the exact zero)",
 ]
 
 CASES = [
@@ -34,7 +36,9 @@ CASES = [
 
 
 def plan(tier, seed):
-    return [dict(op="case", case=i, weight=3) for i in range(len(CASES))] + [dict(op="sqrtlasso", weight=2)]
+    if tier == "quick":
+        return [dict(op="case", case=i, weight=3) for i in range(len(CASES))] + [dict(op="sqrtlasso", weight=2)]
+    return [dict(op="case", case=i, chunk=c, weight=3) for i in range(len(CASES)) for c in range(NCHUNK)] + [dict(op="sqrtlasso", weight=2)]
 
 
 def null_model(dname, X, y, fit_intercept, unpen):
@@ -90,6 +94,22 @@ def exec_case(params):
             amax = float(build.penalty(dict(pspec, alpha=1.0)).alpha_max(g0))
     except Exception as e:
         return [("alpha_max_raises", type(e).__name__ + ": " + str(e)[:100], "a number")], None
+    if pk in ("MCPenalty", "WeightedMCPenalty"):
+        # curvature along feature j once the unpenalised part (intercept) is minimised out: ||(I - P_Z) X_j||^2 / n
+        Zc = [np.ones(n)] if fi else []
+        Xe = X
+        if Zc:
+            Zm = np.column_stack(Zc)
+            Xe = X - Zm @ np.linalg.lstsq(Zm, X, rcond=None)[0]
+        Le = (Xe ** 2).sum(axis=0) / n
+        Le = Le[(X != 0).any(axis=0)]
+        wmax = float(np.max(weights)) if pk == "WeightedMCPenalty" else 1.0
+        if fi and len(Le):
+            # with an unpenalised part the iterates leave w = 0 transiently: they are only guaranteed to come back when the
+            # objective is jointly convex, lambda_min(Xe' Xe / n) > 1 / gamma
+            Le = np.array([float(np.linalg.eigvalsh(Xe.T @ Xe / n)[0])])
+        if len(Le) == 0 or pspec["gamma"] * float(Le.min()) <= 1.0 + 1e-9:
+            return out, None          # gamma <= 1 / L_j: outside MCP's well-posed range, w = 0 is stationary but not a coordinate-wise minimiser
     if np.max(np.abs(g0)) <= 1e-10 * (1 + float(np.max(np.abs(y)))):
         return out, None              # the null model already fits: every alpha is critical
     if not np.isfinite(amax) or amax <= 0:
@@ -118,6 +138,10 @@ def exec_case(params):
         obs[tag] = w
         pen_idx = [j for j in range(p) if j not in unpen]
         nz = np.any(coef[pen_idx] != 0) if coef.ndim == 1 else np.any(coef[pen_idx] != 0)
+        if tag == "above" and nz and skw.get("ws_strategy") == "fixpoint" and (fi or unpen) and np.max(np.abs(coef[pen_idx])) <= 1e-10:
+            # fixed-point scoring stops as soon as ||w - prox(w - grad/L)|| <= tol: a block made transiently non-zero while the
+            # unpenalised part was being fitted may be returned one prox step (of length <= tol) before it becomes exactly zero
+            nz = False
         if tag == "above":
             # with an intercept / unpenalised features to fit, penalised coefficients may be transiently non-zero before convergence
             if nz and not (converged or (not fi and not unpen)):
@@ -126,11 +150,20 @@ def exec_case(params):
                 out.append(("nonzero_at_alpha_max", dict(alpha_max=amax, coef=np.asarray(coef).tolist()), "penalised coefficients exactly 0"))
             elif converged:
                 scale = 1 + float(np.max(np.abs(y)))
-                if fi:
+                Zc = [X[:, j] for j in unpen] + ([np.ones(n)] if fi else [])
+                unique = (not Zc) or np.linalg.matrix_rank(np.column_stack(Zc)) == len(Zc)
+                if dn not in ("Logistic", "LogisticGroup"):
+                    # the linear predictor of the null model is unique even when its coefficients are not
+                    pred = X @ coef + (w[p] if fi else 0.0)
+                    if np.max(np.abs(pred - u0)) > 1e-6 * scale:
+                        out.append(("null_model_predictor_differs", np.asarray(pred).tolist(), np.asarray(u0).tolist()))
+                if not unique:
+                    pass
+                elif fi:
                     b = w[p]
                     if np.max(np.abs(np.asarray(b) - np.asarray(b0))) > 1e-6 * scale:
                         out.append(("intercept_not_null_model", np.asarray(b).tolist(), np.asarray(b0).tolist()))
-                if unpen and np.max(np.abs(coef[unpen] - c0)) > 1e-6 * scale:
+                if unique and unpen and np.max(np.abs(coef[unpen] - c0)) > 1e-6 * scale:
                     out.append(("unpenalised_part_not_null_model", coef[unpen].tolist(), c0.tolist()))
         else:
             if not nz and not pspec.get("positive"):
@@ -138,11 +171,19 @@ def exec_case(params):
     return out, obs.get("below")
 
 
-def cases_for(i, tier):
+NCHUNK = 3
+
+
+def cases_for(i, tier, chunk=None):
     sname, skw, dn, pk = CASES[i]
     kind = R.KIND[dn]
     designs = [("tall6x3", A.G_TALL), ("wide3x5", A.G_WIDE), ("sq4x4", A.G_SQ), ("dup", A.K()["dup"])]
-    for xid, X in designs:
+    if tier != "quick":
+        # every {-1,0,1} design with 4 samples x 2 features (one per row-permutation / sign orbit)
+        designs += [("T42o%d" % k, X) for k, X in enumerate(A.T_orbits(4, 2)) if np.any(X)]
+    for di, (xid, X) in enumerate(designs):
+        if chunk is not None and di % NCHUNK != chunk:
+            continue
         n, p = X.shape
         for tname, y in R.targets(kind, X, tier):
             for dspec in R.datafit_specs(dn, X, "thorough" if tier != "quick" else "quick")[:2]:
@@ -179,7 +220,7 @@ def run(task, ctx):
     if task["op"] == "sqrtlasso":
         return run_sqrt(ctx)
     n = 0
-    for params in cases_for(task["case"], ctx.tier):
+    for params in cases_for(task["case"], ctx.tier, task.get("chunk")):
         v, w = exec_case(params)
         n += 1
         ctx.count("problems")
@@ -218,8 +259,13 @@ def exec_sqrt(params):
 
 
 def run_sqrt(ctx):
-    for xid, X in [("tall6x3", A.G_TALL), ("sq4x4", A.G_SQ), ("dup", A.K()["dup"])]:
+    designs = [("tall6x3", A.G_TALL), ("sq4x4", A.G_SQ), ("dup", A.K()["dup"])]
+    if ctx.tier != "quick":
+        designs += [("T42o%d" % k, X) for k, X in enumerate(A.T_orbits(4, 2)) if np.any(X)]
+    for xid, X in designs:
         for tname, y in R.targets("reg", X, ctx.tier):
+            if not np.any(X.T @ y):
+                continue                  # alpha_max = 0: every alpha is critical
             params = dict(op="sqrtlasso", X=X.tolist(), y=y.tolist(), xid=xid)
             v, w = exec_sqrt(params)
             ctx.count("problems")
